@@ -301,7 +301,9 @@ META["C05"] = dict(engine="dkg", note=DKG_NOTE,
          "parties that return Ok return identical (tpk, pks); the keys lie on one polynomial of degree < t with tpk = g^p(0) and "
          "sk_i = p(i) (hence any >= t of them sign under tpk), t = n included; a key off the polynomial or not matching its commitment "
          "=> no honest Ok. Tie: 18 scripted deviations x victim sets x (n,t) x schedules on real TBLS (TPS: monitors) with exact "
-         "replay on the model; equivocating participant with/without self-acks on the full stack.")
+         "replay on the model (TPS through its first key component); a schedule family without per-link FIFO (directed: a de-commitment "
+         "overtakes its commitment, a share arrives after all commitments; random) for TBLS and TPS, honest and with a deviating "
+         "participant; equivocating participant with/without self-acks on the full stack.")
 META["C01"] = dict(engine="dkg", note=DKG_NOTE + " Liveness of orchestrated signing is not a theorem of this engine: it rests on the synchroniser (C07) and "
                    "msg.Box (C14); the two stalls found here (loud: disc 2681e65; silent: msg.Box b40b5e7) are repaired and any failure is a violation.",
     text="Proved in Coq: with every party honest, every sent message delivered and no cancellation, in ANY interleaving of deliveries "
